@@ -547,6 +547,8 @@ class Model:
                                              -constr.linear, -constr.const,
                                              np.zeros(constr.linear.shape[0]),
                                              constr.event_adapt, constr.ctype)
+                        left.ambset = constr.ambset
+                        right.ambset = constr.ambset
                         return self.ro_to_roc(left) + self.ro_to_roc(right)
 
                     left_empty = roaffine.raffine.linear.nnz == 0
